@@ -79,7 +79,8 @@ pub trait Marshal: Signature {
             let sig_err = crate::signature::Error::SignatureTooLong;
             return Err(sig_err.into());
         }
-        debug_assert!(crate::params::validation::validate_signature(&sig).is_ok());
+        // the signature of a Rust type can still be one the protocol forbids (e.g. more than 32 nested arrays)
+        crate::params::validation::validate_signature(&sig)?;
         crate::wire::util::write_signature(&sig, ctx.buf);
         self.marshal(ctx)
     }
